@@ -67,16 +67,23 @@ def ref_summary(rm, path, testnet):
 class World:
     """The shared objects a history / schedule works on."""
 
-    def __init__(self, seed, testnet, watch_only=False):
+    def __init__(self, seed, testnet, watch_only=False, rootpath=()):
         PW = _impl()
-        self.seed, self.testnet, self.watch_only = seed, testnet, watch_only
+        self.seed, self.testnet, self.watch_only, self.rootpath = seed, testnet, watch_only, list(rootpath)
         self.rm = R.master(seed)
+        if self.rootpath:
+            # the wallet's root is an extended key BELOW the master (account-level import)
+            self.rm = R.derive(self.rm, self.rootpath)
         if watch_only:
-            # a depth-0 public root: the watch-only wallet of the master extended public key
+            # a public root: the watch-only wallet of the (master or deeper) extended public key
             self.xpub = self.rm.xpub(R.TPUB if testnet else R.XPUB)
             self.rm = self.rm.neuter()
             self.W = PW.from_extended_key(self.xpub)
             self.master_xprv = self.W.master.extended_public_key()
+        elif self.rootpath:
+            self.xprv = self.rm.xprv(R.TPRV if testnet else R.XPRV)
+            self.W = PW.from_extended_key(self.xprv)
+            self.master_xprv = self.W.master.extended_private_key()
         else:
             self.W = PW.from_bip39_seed_bytes(seed, testnet)
             self.master_xprv = self.W.master.extended_private_key()
@@ -84,7 +91,7 @@ class World:
 
     def make_twin(self):
         """Another wallet object over the SAME key material on the other network (same process)."""
-        t = World(self.seed, not self.testnet, self.watch_only)
+        t = World(self.seed, not self.testnet, self.watch_only, self.rootpath)
         return t
 
     def root_string(self):
@@ -93,7 +100,12 @@ class World:
 
     def fresh_node(self, path):
         PW = _impl()
-        w = PW.from_extended_key(self.xpub) if self.watch_only else PW.from_bip39_seed_bytes(self.seed, self.testnet)
+        if self.watch_only:
+            w = PW.from_extended_key(self.xpub)
+        elif self.rootpath:
+            w = PW.from_extended_key(self.xprv)
+        else:
+            w = PW.from_bip39_seed_bytes(self.seed, self.testnet)
         node = w.master
         for i in path:
             node = node.ckd(i)
@@ -342,6 +354,7 @@ def gen_history(tier):
     )
     return st.fixed_dictionaries({
         "seed": S.seeds(16, 32), "testnet": st.booleans(), "watch_only": st.sampled_from([False, False, True]),
+        "rootpath": st.sampled_from([[], [], [], [H + 84, H, H], [0], [H + 44, H + 1, H + 2, 0]]),
         "ops": st.one_of(st.lists(st.one_of(requests(), requests(), gen_op), min_size=1, max_size=10),
                          st.lists(st.one_of(requests(), requests(), gen_op), min_size=12, max_size=40)),
     })
@@ -350,7 +363,7 @@ def gen_history(tier):
 def check_history(case, ctx):
     wo = bool(case.get("watch_only"))
     try:
-        world = World(case["seed"], case["testnet"], wo)
+        world = World(case["seed"], case["testnet"], wo, case.get("rootpath") or ())
     except R.Invalid:
         return
     mark = "M" if wo else "m"
@@ -440,7 +453,7 @@ def check_history(case, ctx):
             raise
         # invariants after every step
         m = world.W.master
-        if world.root_string() != world.master_xprv or m.depth != 0 or m.index != 0 \
+        if world.root_string() != world.master_xprv or m.depth != world.rm.depth or m.index != world.rm.index \
                 or m.public_key.sec() != world.rm.sec() or bytes(m.chain_code) != world.rm.c:
             raise Violation("C13/history/root-key-altered", "%s altered the root key" % where)
     ctx.nontrivial = nontrivial
@@ -681,7 +694,8 @@ def clauses():
                "fresh wallet; failing lookups must fail every time; address generators: k-th yield has index "
                "sum-of-advances; repeats answer as before; root key unchanged after every step; non-trivial = a request "
                "on a node that already has children, a repeat, or a generator past its first yield",
-               gen=gen_history, classes=lambda c: ["ops>=10" if len(c["ops"]) >= 10 else "ops<10", "watch-only" if c.get("watch_only") else "full"],
+               gen=gen_history, classes=lambda c: ["ops>=10" if len(c["ops"]) >= 10 else "ops<10", "watch-only" if c.get("watch_only") else "full",
+                                  "root-depth=%d" % len(c.get("rootpath") or ())],
                n={"quick": 320, "thorough": 10000}, shards={"quick": 16, "thorough": 16}),
         Clause("schedules", check_schedule,
                "2..4 threads x 1..3 requests on shared wallet/nodes under the deterministic line-granularity scheduler "
